@@ -104,6 +104,7 @@ def spec (env : Env N) : Op N → Res
   | .findFunc n => resOf (funcOf env n) (fAlignOf env)
   | .findVar n => resOf (varOf env n) (vAlignOf env)
   | .expose n => resOf (funcOf env n) (fAlignOf env)
+  | .allFuncs => allFuncsIn (load env.file)
 
 /-- package states reachable from the initial one -/
 structure Inv (env : Env N) (s : St N) : Prop where
@@ -160,8 +161,11 @@ theorem initAlign_spec {env : Env N} {s : St N} (h : Inv env s) :
 theorem step_spec {env : Env N} {s : St N} (h : Inv env s) (op : Op N) :
     Inv env (step env s op).1 ∧ (step env s op).2 = spec env op := by
   obtain ⟨hi, hf, hv⟩ := initAlign_spec h
-  cases op <;> simp only [step, spec] <;>
-    exact ⟨inv_touch hi, by simp only [funcSym_eq hi, varSym_eq hi, hf, hv]⟩
+  cases op with
+  | allFuncs => exact ⟨inv_touch h, by simp only [step, spec, table_eq h]⟩
+  | findFunc n => exact ⟨inv_touch hi, by simp only [step, spec, funcSym_eq hi, hf]⟩
+  | findVar n => exact ⟨inv_touch hi, by simp only [step, spec, varSym_eq hi, hv]⟩
+  | expose n => exact ⟨inv_touch hi, by simp only [step, spec, funcSym_eq hi, hf]⟩
 
 theorem run_spec {env : Env N} (ops : List (Op N)) : ∀ {s : St N}, Inv env s →
     Inv env (run env s ops).1 ∧ (run env s ops).2 = ops.map (spec env) := by
